@@ -719,11 +719,11 @@ theorem C10_ring_current :
     -- Next, Prev, At, scan
     Gen.Ring.nextFld = .next ∧ Gen.Ring.prevFld = .prev ∧
     (∀ n, Gen.Ring.atNeg n = decide (n < 0)) ∧
-    (∀ n, Gen.Ring.atNegated n = -n) ∧
+    Gen.Ring.atStepFwd = 1 ∧ Gen.Ring.atStepBack = -1 ∧
     Gen.Ring.atFwd = .next ∧ Gen.Ring.atBack = .prev ∧
-    (∀ n, Gen.Ring.atGoes n = decide (n > 0)) ∧
+    (∀ n, Gen.Ring.atGoes n = decide (n ≠ 0)) ∧
     Gen.Ring.scanWrapFld = .next ∧ Gen.Ring.scanStepFld = .next :=
-  ⟨rfl, rfl, rfl, rfl, rfl, rfl, rfl, rfl, fun _ => rfl, fun _ => rfl, rfl, rfl, rfl, fun _ => rfl, fun _ => rfl,
+  ⟨rfl, rfl, rfl, rfl, rfl, rfl, rfl, rfl, fun _ => rfl, fun _ => rfl, rfl, rfl, rfl, fun _ => rfl, rfl, rfl,
    rfl, rfl, fun _ => rfl, rfl, rfl⟩
 
 /-- non-vacuity of the table interpreter: the model's `Join` of two elements of one ring executes the four
